@@ -111,6 +111,9 @@ def lean_deps(module: str, seen=None) -> list[Path]:
     return list(seen.values())
 
 
+LAST_AUDIT: dict = {"rc": None, "out": ""}
+
+
 def print_axioms(module: str, theorems: list[str], tag: str) -> dict[str, list[str] | None]:
     """Run `#print axioms` for every theorem; None = theorem missing / module broken."""
     audit_dir = LEAN / ".audit"
@@ -126,6 +129,7 @@ def print_axioms(module: str, theorems: list[str], tag: str) -> dict[str, list[s
     finally:
         lock.close()
     out = p.stdout
+    LAST_AUDIT["rc"], LAST_AUDIT["out"] = p.returncode, out
     res: dict[str, list[str] | None] = {t: None for t in theorems}
     for m in re.finditer(r"'([^']+)' depends on axioms: \[([^\]]*)\]", out, re.S):
         res[m.group(1)] = [a.strip() for a in m.group(2).replace("\n", " ").split(",") if a.strip()]
@@ -240,6 +244,8 @@ class Check:
         self.checker_cmd = "cd /verif/lean && lake build %s cdd_model && lake env lean .audit/Audit_%s.lean  # #print axioms" % (" ".join(targets), self.prop)
         # (1) the property's own modules: a failure here is a broken proof obligation
         ok, log = lake_build(targets)
+        if not ok and re.search(r"exited with code (137|139|143|-9)|[Kk]illed|[Oo]ut of memory|Cannot allocate memory|resource temporarily unavailable", log):
+            raise HarnessError("lake build was interrupted by the machine (killed / out of memory), not by a Lean error: %s" % log[-600:])
         # (2) the shared driver (all properties' ops): a failure here that is not caused by this property's modules is a
         #     problem of the machinery (exit 2), never a verdict about the property
         okd, logd = lake_build(["cdd_model"])
@@ -276,7 +282,13 @@ class Check:
         for t in theorems:
             a = ax.get(t)
             if a is None:
-                self.oblige(t, "theorem", False, "theorem not found by #print axioms")
+                # a theorem that really is missing is named in an "unknown constant/identifier" message; anything else (lean killed under
+                # memory pressure, truncated output) is a problem of the run, not a verdict about the property
+                short = t.split(".")[-1]
+                if re.search(r"[Uu]nknown (constant|identifier)[^\n]*%s" % re.escape(short), LAST_AUDIT["out"]):
+                    self.oblige(t, "theorem", False, "theorem not found by #print axioms")
+                else:
+                    raise HarnessError("axiom audit did not complete for %s (lean rc=%s): %s" % (t, LAST_AUDIT["rc"], LAST_AUDIT["out"][-600:]))
             else:
                 extra = sorted(set(a) - STD_AXIOMS)
                 self.oblige(t, "theorem", not extra, "axioms: %s" % (a,))
